@@ -31,7 +31,8 @@ PROBES = {
             "update_predict_single_checked", "update_predict_default_splitter",
             "all_scores_undefined", "step_refused_by_both", "raw_metric_checked",
             "refit_switched_off_and_fitted_again", "refit_failed_on_second_fit", "rescaled_series",
-            "revised_batch_checked", "search_with_exogenous_data", "metric_changed_before_second_fit"],
+            "revised_batch_checked", "search_with_exogenous_data", "metric_changed_before_second_fit",
+            "default_arguments_checked", "grid_with_component_objects"],
 }
 FAULT_KINDS = {
     "C07": ["clock_jump_fwd", "clock_jump_back"],
@@ -227,7 +228,7 @@ def generate(prop, rng, tier):
         }
     # ---- C08
     n = rng.randint(18, 36 if not big else 70)
-    base_kind = rng.choice(["naive", "naive", "ttf", "mux", "theta"])
+    base_kind = rng.choice(["naive", "naive", "ttf", "mux", "theta", "ttf_obj"])
     if base_kind == "naive":
         base = {"kind": "naive", "strategy": "last", "sp": 1, "window_length": None}
         grid = {"strategy": rng.sample(["last", "mean", "drift"], rng.randint(2, 3))}
@@ -248,6 +249,13 @@ def generate(prop, rng, tier):
     elif base_kind == "theta":
         base = {"kind": "theta", "sp": 1, "deseasonalize": True}
         grid = {"sp": rng.sample([1, 2, 4], 2), "deseasonalize": [True, False]}
+    elif base_kind == "ttf_obj":
+        # a grid that lists a component OBJECT together with nested parameters of that component
+        # (one NaiveForecaster object, listed in both sub-grids)
+        base = {"kind": "ttf", "transformers": [{"kind": "deseason", "sp": 2, "model": "additive"}],
+                "forecaster": {"kind": "trend", "degree": 1, "with_intercept": True}}
+        grid = [{"f": ["@naive"], "f__strategy": rng.sample(["last", "mean", "drift"], 2)},
+                {"f": ["@naive"], "f__strategy": ["mean"], "f__window_length": rng.sample([3, 4, 6], 2)}]
     elif base_kind == "ttf":
         base = {"kind": "ttf", "transformers": [{"kind": "deseason", "sp": 2, "model": "additive"}],
                 "forecaster": {"kind": "naive", "strategy": "last", "sp": 1, "window_length": None}}
@@ -303,7 +311,8 @@ def generate(prop, rng, tier):
                     "mode": rng.choice(["fifo", "ooo", "interleave"]),
                     "seed": rng.randint(0, 10 ** 6)},
         "history": [rng.choice(["predict", "update", "update_nop", "update_predict", "predict",
-                                "ups", "ups_nop", "update_predict_nocv", "update_revised"])
+                                "ups", "ups_nop", "update_predict_nocv", "update_revised",
+                                "update_default", "ups_default"])
                     for _ in range(rng.randint(1, 4))],
         "tail": rng.randint(4, 8),
         "clock": {"seed": rng.randint(0, 10 ** 6), "jump_every": rng.choice([0, 0, 4]),
@@ -597,11 +606,36 @@ def ForecastingHorizonAbs(index):
 
 
 # ------------------------------------------------------------------ C08
+def _mat_grid(grid):
+    """The grid as the user writes it: the marker "@naive" stands for ONE NaiveForecaster
+    object that the user lists (possibly in several sub-grids)."""
+    if '"@naive"' not in json.dumps(grid):
+        return grid
+    from sktime.forecasting.naive import NaiveForecaster
+    obj = NaiveForecaster()
+
+    def sub(v):
+        return [obj if x == "@naive" else x for x in v]
+    if isinstance(grid, list):
+        return [{k: sub(v) for k, v in g.items()} for g in grid]
+    return {k: sub(v) for k, v in grid.items()}
+
+
+def _pkey(params):
+    """Comparable form of a candidate (estimator-valued entries by class)."""
+    return {k: (type(v).__name__ if hasattr(v, "get_params") else v) for k, v in params.items()}
+
+
 def _candidates(scen):
+    """The candidate list, each candidate with its own fresh copies of estimator values."""
+    from sklearn.base import clone
     from sklearn.model_selection import ParameterGrid, ParameterSampler
+    grid = _mat_grid(scen["grid"])
     if scen["search"] == "grid":
-        return list(ParameterGrid(scen["grid"]))
-    return list(ParameterSampler(scen["grid"], scen["n_iter"], random_state=_search_rs(scen)))
+        cands = list(ParameterGrid(grid))
+    else:
+        cands = list(ParameterSampler(grid, scen["n_iter"], random_state=_search_rs(scen)))
+    return [{k: (clone(v) if hasattr(v, "get_params") else v) for k, v in c.items()} for c in cands]
 
 
 def _search_rs(scen):
@@ -626,8 +660,8 @@ def _make_tuner(scen, n_jobs, pre_dispatch="same"):
     if pd_ is not None:
         kw["pre_dispatch"] = pd_
     if scen["search"] == "grid":
-        return ForecastingGridSearchCV(base, cv, scen["grid"], **kw)
-    return ForecastingRandomizedSearchCV(base, cv, scen["grid"], n_iter=scen["n_iter"],
+        return ForecastingGridSearchCV(base, cv, _mat_grid(scen["grid"]), **kw)
+    return ForecastingRandomizedSearchCV(base, cv, _mat_grid(scen["grid"]), n_iter=scen["n_iter"],
                                          random_state=_search_rs(scen), **kw)
 
 
@@ -731,6 +765,8 @@ def execute_c08(scen):
         res.probe("nested_param_names")
     if isinstance(scen["grid"], list):
         res.probe("list_of_grids")
+    if '"@naive"' in json.dumps(scen["grid"]):
+        res.probe("grid_with_component_objects")
     if scen["search"] == "random" and scen.get("search_rs_kind") == "instance":
         res.probe("random_state_instance")
     if scen["base"]["kind"] == "mux":
@@ -742,7 +778,7 @@ def execute_c08(scen):
     res.ops = len(cands)
     # ---- candidate list
     got_params = list(table["params"])
-    if got_params != cands:
+    if [_pkey(g_) for g_ in got_params] != [_pkey(c_) for c_ in cands]:
         v("candidate_list", "cv_results_ params %s... are not the %s candidates %s..." % (
             got_params[:3], scen["search"], cands[:3]))
         res.digest = "cands"
@@ -818,7 +854,7 @@ def execute_c08(scen):
           direction="greater" if greater else "lower")
         res.digest = "best"
         return res
-    if not np.isclose(float(tuner.best_score_), means[bi]) or tuner.best_params_ != cands[bi]:
+    if not np.isclose(float(tuner.best_score_), means[bi]) or _pkey(tuner.best_params_) != _pkey(cands[bi]):
         v("best_attributes_inconsistent", "best_score_/best_params_ do not belong to row best_index_")
         return res
     # ---- sibling with another n_jobs / schedule: identical table
@@ -923,6 +959,7 @@ def execute_c08(scen):
                            ("update", lambda: tuner.update(tail)),
                            ("update_predict", lambda: tuner.update_predict(tail)),
                            ("update_predict_single", lambda: tuner.update_predict_single(tail, fh=[1])),
+                           ("cutoff", lambda: tuner.cutoff),
                            ("score", lambda: tuner.score(tail, fh=[1, 2])),
                            ("transform", lambda: tuner.transform(tail))):
             try:
@@ -1004,6 +1041,21 @@ def execute_c08(scen):
                 def step(o, batch=batch, up=up):
                     o.update(batch, update_params=up)
                     return o.predict(fh)
+        elif op in ("update_default", "ups_default"):
+            # the same call with the same (few) arguments on both: whatever is left to defaults
+            # must default the same way
+            if pos + 2 > len(tail):
+                continue
+            batch = tail.iloc[pos:pos + 2]
+            pos += 2
+            res.probe("default_arguments_checked")
+            if op == "update_default":
+                def step(o, batch=batch):
+                    o.update(batch)
+                    return o.predict(fh)
+            else:
+                def step(o, batch=batch):
+                    return o.update_predict_single(batch, fh=fh)
         elif op == "update_revised":
             # revised values for the two most recent time points already seen (the batch ends
             # exactly at the cutoff)
